@@ -22,30 +22,35 @@ from zope.interface import directlyProvides, implementer
 from zope.interface.registry import Components
 
 
-class Comp:
-    """component / factory with separate identity and equality class; callable (adapter factory,
-    subscriber, handler) with the shared deterministic oracle"""
+def make_classes():
+    """Fresh component classes per case: ``directlyProvides`` shares Provides objects per
+    (class, interfaces) and interfaces of different cases' worlds are equal by name."""
 
-    def __init__(self, vid, veq, env):
-        self.vid, self.veq, self.env = vid, veq, env
+    class Comp:
+        """component / factory with separate identity and equality class; callable (adapter
+        factory, subscriber, handler) with the shared deterministic oracle"""
 
-    def __eq__(self, other):
-        return isinstance(other, Comp) and other.veq == self.veq
+        def __init__(self, vid, veq, env):
+            self.vid, self.veq, self.env = vid, veq, env
 
-    def __ne__(self, other):
-        return not self.__eq__(other)
+        def __eq__(self, other):
+            return isinstance(other, Comp) and other.veq == self.veq
 
-    def __hash__(self):
-        return hash(self.veq)
+        def __ne__(self, other):
+            return not self.__eq__(other)
 
-    def __call__(self, *objs):
-        ids = [self.env.world.obj_id(o) for o in objs]
-        self.env.calls.append(self.vid)
-        return R.oracle_call(self.vid, ids)
+        def __hash__(self):
+            return hash(self.veq)
 
+        def __call__(self, *objs):
+            ids = [self.env.world.obj_id(o) for o in objs]
+            self.env.calls.append(self.vid)
+            return R.oracle_call(self.vid, ids)
 
-class UComp(Comp):
-    __hash__ = None
+    class UComp(Comp):
+        __hash__ = None
+
+    return Comp, UComp
 
 
 class UFactory:
@@ -70,6 +75,7 @@ def info_id(s):
 class Env:
     def __init__(self, case):
         self.world = R.World(case)
+        self.Comp, self.UComp = make_classes()
         self.unh = set(case.get("unhashable", []))
         self.comps = {}
         self.facs = {}
@@ -83,7 +89,7 @@ class Env:
             return None
         key = (v[0], v[1])
         if key not in self.comps:
-            cls = UComp if v[0] in self.unh else Comp
+            cls = self.UComp if v[0] in self.unh else self.Comp
             self.comps[key] = cls(v[0], v[1], self)
         return self.comps[key]
 
@@ -110,7 +116,7 @@ class Env:
     def cv(self, c):
         if c is None:
             return None
-        if isinstance(c, Comp):
+        if isinstance(c, self.Comp):
             return [c.vid, c.veq]
         self.exc = True
         return [999, 999]
